@@ -94,10 +94,16 @@ func c17Scenarios(tier string) []*core.Scenario {
 				lastSrcs = append(lastSrcs, bitsLine(last)+pre+c17Body(grp))
 			}
 			mixed := eff[0] != eff[1] || eff[1] != eff[2]
+			if c.Bool("grown_branch_at_end") { // a Jcc across 300 bytes at the end: pass 1 runs a second time over the whole file
+				tailB := "\tJNZ rlx_far\n\tRESB 300\nrlx_far:\n\tHLT\n"
+				src.WriteString(tailB)
+				segSrcs[2] += tailB
+				lastSrcs[2] += tailB
+			}
 			srcs := append([]string{src.String()}, segSrcs...)
 			srcs = append(srcs, lastSrcs...)
 			return &core.Case{
-				Key:       fmt.Sprintf("dirs=%v|group=%d|neutral=%s", dirs, g, nt) + map[bool]string{true: fmt.Sprintf("|overridden=%v", before), false: ""}[before != [3]int{}],
+				Key:       fmt.Sprintf("dirs=%v|group=%d|neutral=%s|len=%d", dirs, g, nt, src.Len()) + map[bool]string{true: fmt.Sprintf("|overridden=%v", before), false: ""}[before != [3]int{}],
 				Feat:      feat("dirs", fmt.Sprint(dirs), "overridden", fmt.Sprint(before), "eff", fmt.Sprint(eff), "group", fmt.Sprint(g), "neutral", nt, "mixed", fmt.Sprint(mixed), "last", fmt.Sprint(last)),
 				FreshRefs: true, Srcs: srcs,
 				Judge: func(rs []*core.Result) core.Verdict {
@@ -135,7 +141,8 @@ func c17Scenarios(tier string) []*core.Scenario {
 			g := c.Pick("group", len(c17Groups))
 			m := []int{32, 16, 0}[c.Pick("mode", 3)]
 			pos := c.Pick("pos", len(prelude)+1)
-			coff := c.Bool("wcoff") // the same program as a WCOFF object: the .text sections are compared
+			coff := c.Bool("wcoff")                // the same program as a WCOFF object: the .text sections are compared
+			relax := c.Bool("grown_branch_behind") // a Jcc across 300 bytes BEHIND the group: pass 1 runs a second time
 			var sb strings.Builder
 			if coff {
 				sb.WriteString("[FORMAT \"WCOFF\"]\n")
@@ -149,6 +156,9 @@ func c17Scenarios(tier string) []*core.Scenario {
 				}
 			}
 			tail := "endlab:\n" + sentinelLine(0) + "\tDD endlab\n"
+			if relax {
+				tail += "\tJNZ rlx_far\n\tRESB 300\nrlx_far:\n\tHLT\n"
+			}
 			sb.WriteString(c17Body(c17Groups[g]) + tail)
 			eff := m
 			if eff == 0 {
@@ -159,7 +169,7 @@ func c17Scenarios(tier string) []*core.Scenario {
 				ref = "[FORMAT \"WCOFF\"]\n" + ref
 			}
 			return &core.Case{
-				Key:       fmt.Sprintf("BITS %d at %d|group=%d", m, pos, g) + map[bool]string{true: "|WCOFF", false: ""}[coff],
+				Key:       fmt.Sprintf("BITS %d at %d|group=%d", m, pos, g) + map[bool]string{true: "|WCOFF", false: ""}[coff] + map[bool]string{true: "|grown branch behind", false: ""}[relax],
 				Feat:      feat("mode", fmt.Sprint(m), "pos", fmt.Sprint(pos), "group", fmt.Sprint(g), "wcoff", fmt.Sprint(coff)),
 				FreshRefs: true, Srcs: []string{sb.String(), ref},
 				Judge: func(rs0 []*core.Result) core.Verdict {
